@@ -5,6 +5,7 @@ go 1.25.7
 require (
 	github.com/anyproto/any-store v0.4.7
 	github.com/anyproto/any-sync v0.0.0
+	github.com/cespare/xxhash v1.1.0
 	github.com/cheggaaa/mb/v3 v3.0.3
 	go.uber.org/zap v1.28.0
 	google.golang.org/protobuf v1.36.11
@@ -20,7 +21,6 @@ require (
 	github.com/anyproto/go-sqlite v1.4.2-any // indirect
 	github.com/anyproto/lexid v0.0.6 // indirect
 	github.com/beorn7/perks v1.0.1 // indirect
-	github.com/cespare/xxhash v1.1.0 // indirect
 	github.com/cespare/xxhash/v2 v2.3.0 // indirect
 	github.com/davecgh/go-spew v1.1.1 // indirect
 	github.com/davidlazar/go-crypto v0.0.0-20200604182044-b73af7476f6c // indirect
